@@ -178,6 +178,29 @@ inductive Op where
   | getDual (closed : Bool) (c : Counts)
 deriving DecidableEq, Repr
 
+/-- The public ways of copying a `DataArray`.  `copy(deep=True, data=None)` has `deep=True` as its
+    default, `copy.copy` is `_copy(deep=False)`, `copy.deepcopy` is `_copy(deep=True, memo=…)`.  Supplying
+    `data=` replaces the VALUES only: whether the copy is deep (and hence must get an equal, independent
+    grid) is decided by `deep` alone. -/
+inductive CopyApi where
+  | default          -- copy()
+  | deepTrue         -- copy(deep=True)
+  | deepFalse        -- copy(deep=False)
+  | data             -- copy(data=x)
+  | deepTrueData     -- copy(deep=True, data=x)
+  | deepFalseData    -- copy(deep=False, data=x)
+  | pyCopy           -- copy.copy(uxda)
+  | pyDeepcopy       -- copy.deepcopy(uxda)
+deriving DecidableEq, Repr
+
+/-- everything except `deep=False` / `copy.copy` is a deep copy -/
+def CopyApi.deep : CopyApi → Bool
+  | .deepFalse | .deepFalseData | .pyCopy => false
+  | _ => true
+
+/-- the operation a copy call is; `fresh` = the new grid got its own backing store (observed) -/
+def Op.ofCopy (api : CopyApi) (fresh : Bool) : Op := .copy api.deep fresh
+
 /-- the class of an xarray operation (none for copies and for uxarray's own operations) -/
 def Op.kind : Op → Option XKind
   | .elem k => some k
